@@ -37,6 +37,11 @@ def main():
     size = int(sys.argv[1]) if len(sys.argv) > 1 else 12
     ms = mutsweep.load()
     quiet = [m for m in ms if "checks" in m and all(v == "quiet" for v in m["checks"].values()) and "triage" not in m]
+    dispatched = set()
+    for d in os.listdir("/tmp"):
+        if d.startswith("tri_") and d.endswith("_out") and os.path.exists("/tmp/%s/ids.json" % d):
+            dispatched |= set(json.load(open("/tmp/%s/ids.json" % d)))
+    quiet = [m for m in quiet if m["id"] not in dispatched]
     quiet.sort(key=lambda m: (m["file"], m["line"]))
     batches, cur = [], []
     for m in quiet:
